@@ -173,3 +173,33 @@ func (h *H2Client) ReadResponse(id uint32, wait time.Duration) (*H2Response, err
 		}
 	}
 }
+
+// SendAborted writes, in ONE TCP segment, a request whose body is complete (HEADERS, then a
+// single DATA frame with END_STREAM) immediately followed by RST_STREAM(CANCEL) for that
+// stream (rst) - or by nothing, so that the caller can drop the connection right away.
+// Frames of other kinds are not read.
+func (h *H2Client) SendAborted(fields []H2Field, body []byte, rst bool) error {
+	id := h.nextID
+	h.nextID += 2
+	h.encBuf.Reset()
+	for _, f := range fields {
+		if err := h.enc.WriteField(hpack.HeaderField{Name: f.Name, Value: f.Value}); err != nil {
+			return err
+		}
+	}
+	var out bytes.Buffer
+	fr := http2.NewFramer(&out, nil)
+	if err := fr.WriteHeaders(http2.HeadersFrameParam{StreamID: id, BlockFragment: h.encBuf.Bytes(), EndStream: false, EndHeaders: true}); err != nil {
+		return err
+	}
+	if err := fr.WriteData(id, true, body); err != nil {
+		return err
+	}
+	if rst {
+		if err := fr.WriteRSTStream(id, http2.ErrCodeCancel); err != nil {
+			return err
+		}
+	}
+	_, err := h.Conn.Write(out.Bytes())
+	return err
+}
